@@ -18,6 +18,8 @@ pub enum Mode {
     #[value(name = "slow-mode", alias = "s", alias = "slowly")]
     Slow,
     TwoWords,
+    #[value(hide = true, alias = "hush")]
+    Secret,
     #[value(skip)]
     #[allow(dead_code)]
     Internal,
@@ -199,6 +201,7 @@ fn mode_name(m: Mode) -> &'static str {
         Mode::Fast => "fast",
         Mode::Slow => "slow-mode",
         Mode::TwoWords => "two-words",
+        Mode::Secret => "secret",
         Mode::Internal => "internal",
     }
 }
@@ -278,13 +281,14 @@ fn gen_flat(rng: &mut Rng) -> Flat {
         optmany: if rng.coin() { Some((0..rng.urange(1, 2)).map(|_| pick_str(rng)).collect()) } else { None },
         num: *rng.pick(&[7, 0, -3, 42, i32::MAX, i32::MIN]),
         list: (0..rng.usize(3)).map(|_| rng.below(256) as u8).collect(),
-        mode: match rng.below(4) {
+        mode: match rng.below(5) {
             0 => None,
             1 => Some(Mode::Fast),
             2 => Some(Mode::Slow),
+            3 => Some(Mode::Secret),
             _ => Some(Mode::TwoWords),
         },
-        dmode: *rng.pick(&[Mode::Fast, Mode::Slow, Mode::TwoWords]),
+        dmode: *rng.pick(&[Mode::Fast, Mode::Slow, Mode::TwoWords, Mode::Secret]),
         pos: if rng.coin() { Some(pick_str(rng)) } else { None },
         skipped: 0,
     }
